@@ -79,10 +79,25 @@ ModelFailures(c, m) ==
           \o (IF ~IsCountermodel(L, M, c.arg) THEN <<F("IsCountermodel", -1, "")>> ELSE <<>>)
           \o (IF m.is_countermodel # 1 THEN <<F("LibraryAgrees", -1, "")>> ELSE <<>>)
 
+\* root cause of a completed open branch whose literals are classically unsatisfiable: a negated identity ~(u = v)
+\* although u = v follows from the positive identities at that world by symmetry / transitivity (the identity rule
+\* substitutes into positive predications only and never turns a = b around)
+IdP2 == <<-1, 0, 2>>
+IdentitySymmetryGap(nodes) ==
+  \E j \in 1..Len(nodes) :
+     LET n == nodes[j] IN
+     n.k = "s" /\ IsNeg(n.s) /\ n.s[3][1][1] = "P" /\ n.s[3][1][2] = IdP2 /\
+     LET pos == {nodes[k].s[3] : k \in {k \in 1..Len(nodes) : nodes[k].k = "s" /\ nodes[k].w = n.w /\ nodes[k].s[1] = "P"
+                                                              /\ nodes[k].s[2] = IdP2}}
+         E == TC({<<t[1], t[2]>> : t \in pos} \cup {<<t[2], t[1]>> : t \in pos})
+     IN <<n.s[3][1][3][1], n.s[3][1][3][2]>> \in E /\ n.s[3][1][3] \notin pos
+
 Failures(c) ==
   IF c.raised # ""
   THEN <<[id |-> c.id, logic |-> c.logic, argstr |-> c.argstr, branch |-> -1, clause |-> "RaisedInsteadOfCountermodel",
-          node |-> -1, shape |-> c.raised, rules |-> c.rules, gap |-> "", mixes |-> FALSE]>>
+          node |-> -1, shape |-> c.raised, rules |-> c.rules,
+          gap |-> IF \E b \in 1..Len(c.open_nodes) : IdentitySymmetryGap(c.open_nodes[b]) THEN "identity-symmetry" ELSE "",
+          mixes |-> FALSE]>>
   ELSE IF c.nmodels_expected # Len(c.models)
   THEN <<[id |-> c.id, logic |-> c.logic, argstr |-> c.argstr, branch |-> -1, clause |-> "ModelPerOpenBranch",
           node |-> -1, shape |-> "", rules |-> c.rules, gap |-> "", mixes |-> FALSE]>>
